@@ -228,7 +228,7 @@ func c13Run(c c13Case, st *vlib.Stats) string {
 	var lastParkEnd int64 // unix nanos
 	// a total order over hook events: a flusher event that falls between two
 	// storage accesses of one statement ran while that statement held its bracket
-	var seq, firstSess, lastSess, stmtWrites int64
+	var seq, firstSess, lastSess, stmtWrites, flusherIn int64
 	var flusherSeqs []int64
 	var flusherWhat []string
 	noCreate := int64(0) // 1 while the running statement is not a CREATE TABLE
@@ -266,6 +266,20 @@ func c13Run(c c13Case, st *vlib.Stats) string {
 			return
 		}
 		// another goroutine: the flusher
+		switch point {
+		case "flush.begin":
+			atomic.StoreInt64(&flusherIn, gid)
+		case "flush.end":
+			atomic.StoreInt64(&flusherIn, 0)
+		case "page.write", "header.write":
+			// the timer's writes belong inside its flush (flush.begin .. flush.end mark the
+			// exclusive section): a write after it is a write statements can run next to
+			if atomic.LoadInt64(&flusherIn) != gid {
+				mu.Lock()
+				violations = append(violations, fmt.Sprintf("%s on the flusher goroutine outside its flush section (after the exclusive lock was given up), around statement %d", point, atomic.LoadInt64(&stmtIdx)))
+				mu.Unlock()
+			}
+		}
 		switch point {
 		case "flush.begin", "page.write", "header.write":
 			mu.Lock()
